@@ -94,6 +94,7 @@ sim_alloc_reset (void)
 void
 sim_alloc_enter (int op_index, int fault_mode, int fault_k, int fault_entry)
 {
+    if (!sim_alloc.tracking) return;      /* thread world: the wrapper is a pure pass-through, no shared writes */
     sim_alloc.armed = 1;
     sim_alloc.op_index = op_index;
     sim_alloc.fault_mode = fault_k > 0 ? fault_mode : FAULT_NONE;
@@ -108,6 +109,7 @@ sim_alloc_enter (int op_index, int fault_mode, int fault_k, int fault_entry)
 void
 sim_alloc_leave (void)
 {
+    if (!sim_alloc.tracking) return;
     sim_alloc.armed = 0;
 }
 
